@@ -17,7 +17,9 @@ class C02(Prop):
     lean_modules = ["EaselModel.Props.C02"]
     lean_exe = "c02_driver"
     harness = "h_sqio.c"
-    theorems = ["EaselModel.Props.C02." + t for t in S.C02_THEOREMS]
+    MSA_THEOREMS = ["msa_open_total", "msa_fetch_total", "msa_read_total", "msa_readSequence_total", "msa_readInfo_total", "msa_mode_ok",
+                    "msa_fwd_window_coords", "msa_rev_window_coords", "msa_rev_window_old_illformed"]
+    theorems = ["EaselModel.Props.C02." + t for t in S.C02_THEOREMS + MSA_THEOREMS]
     claimed = True
     diverge_is_violation = True
     level_text = ("Theorems for every byte string and every read-block size B >= 1 (FASTA family, text and digital): opening the file and reading records with sqascii_Read until the first non-OK status ends within size+2 calls with eslEOF or eslEFORMAT - never a fault (no buf[i] outside the buffer, no store outside an allocation of the ESL_SQ, through loadbuf / nextchar / header_fasta / seebuf / addbuf / end_fasta composed) - and every record returned is well formed (read_all_total, read_total; the reader IS the declarative parser specFasta: C04.read_all_eq_specFasta); the same for ReadInfo, ReadSequence (readInfo_total, readSequence_total) and whole-sequence ReadBlock (readBlock_total); eslEFORMAT always comes with a message; "
